@@ -379,6 +379,81 @@ def reach(src: int, dst: int, tog: int, two_routers: bool, warm: bool):
     check(got_payload[third] == 0, lambda: f"unicast exchange {s}->{d} was handed to software on {third}")
 
 
+def _triangle():
+    """pc_a - r1, pc_b - r3, routers in a triangle with ASYMMETRIC static routes: towards pc_b's subnet r1 goes via r2
+    (r2 via r3), back towards pc_a's subnet r3 goes directly to r1."""
+    from primaite.simulator.network.hardware.nodes.network.router import ACLAction
+
+    quiet()
+    sim = new_sim()
+    net = sim.network
+    rs = {}
+    for name in ("r1", "r2", "r3"):
+        r = mk_node("router", name, start_up_duration=0, num_ports=4)
+        r.power_on()
+        net.add_node(r)
+        r.acl.add_rule(action=ACLAction.PERMIT, position=1)
+        rs[name] = r
+    a = mk_host("computer", "pc_a", "192.168.1.2", gw="192.168.1.1", start_up_duration=0)
+    b = mk_host("server", "pc_b", "192.168.3.2", gw="192.168.3.1", start_up_duration=0)
+    for h in (a, b):
+        h.power_on()
+        net.add_node(h)
+    # transit links: r1-r2 10.0.12.0/30, r2-r3 10.0.23.0/30, r1-r3 10.0.13.0/30
+    rs["r1"].configure_port(1, "192.168.1.1", "255.255.255.0")
+    rs["r1"].configure_port(2, "10.0.12.1", "255.255.255.252")
+    rs["r1"].configure_port(3, "10.0.13.1", "255.255.255.252")
+    rs["r2"].configure_port(1, "10.0.12.2", "255.255.255.252")
+    rs["r2"].configure_port(2, "10.0.23.1", "255.255.255.252")
+    rs["r3"].configure_port(1, "192.168.3.1", "255.255.255.0")
+    rs["r3"].configure_port(2, "10.0.23.2", "255.255.255.252")
+    rs["r3"].configure_port(3, "10.0.13.2", "255.255.255.252")
+    net.connect(rs["r1"].network_interface[1], a.network_interface[1])
+    net.connect(rs["r3"].network_interface[1], b.network_interface[1])
+    net.connect(rs["r1"].network_interface[2], rs["r2"].network_interface[1])
+    net.connect(rs["r2"].network_interface[2], rs["r3"].network_interface[2])
+    net.connect(rs["r1"].network_interface[3], rs["r3"].network_interface[3])
+    for r, ports in (("r1", (1, 2, 3)), ("r2", (1, 2)), ("r3", (1, 2, 3))):
+        for p in ports:
+            rs[r].enable_port(p)
+    rs["r1"].route_table.add_route(address="192.168.3.0", subnet_mask="255.255.255.0", next_hop_ip_address="10.0.12.2")
+    rs["r2"].route_table.add_route(address="192.168.3.0", subnet_mask="255.255.255.0", next_hop_ip_address="10.0.23.2")
+    rs["r2"].route_table.add_route(address="192.168.1.0", subnet_mask="255.255.255.0", next_hop_ip_address="10.0.12.1")
+    rs["r3"].route_table.add_route(address="192.168.1.0", subnet_mask="255.255.255.0", next_hop_ip_address="10.0.13.1")
+    return sim, a, b, rs
+
+
+def reach_asymmetric(from_a: bool, n_warm: int, which_down: int):
+    """Three routers in a triangle with asymmetric static routes (request and reply take different paths): a ping
+    between the two hosts succeeds whenever every device on both paths is up; with the link of the reply path or of
+    the request path down it fails."""
+    assume(all_of(rng(n_warm, 0, 2), rng(which_down, 0, 3)))
+    nw = pick_int(n_warm, 0, 2)
+    down = pick(["none", "r1_r3", "r1_r2", "r2_r3"], which_down)
+    with concrete():
+        sim, a, b, rs = _triangle()
+        src, dst_ip = (a, "192.168.3.2") if from_a else (b, "192.168.1.2")
+        for _ in range(nw):
+            a.ping("192.168.3.2", pings=1)
+            b.ping("192.168.1.2", pings=1)
+        if down == "r1_r3":
+            rs["r1"].network_interface[3].disable()
+        elif down == "r1_r2":
+            rs["r1"].network_interface[2].disable()
+        elif down == "r2_r3":
+            rs["r2"].network_interface[2].disable()
+        ok = False
+        try:
+            for _ in range(4):  # cold ARP on up to 4 hops: the first exchanges only resolve addresses
+                ok = src.ping(dst_ip, pings=1) or ok
+        except Exception as e:
+            fail(f"ping raised {type(e).__name__}: {e}")
+    # a->b uses r1-r2-r3, b->a uses r3-r1; an echo exchange needs both directions
+    up = down == "none"
+    cover("asym_up" if up else "asym_down")
+    check(bool(ok) == up, lambda: f"ping {'a->b' if from_a else 'b->a'} with link {down} down, {nw} warm-up rounds: result {ok}, every device on both (asymmetric) paths {'is' if up else 'is not'} up")
+
+
 def addressee(mac_kind: int, ip_kind: int, node_on: bool):
     """HostNode: a frame is handed to the session manager only if it is addressed to this interface (own MAC, or a
     broadcast MAC with own / subnet-broadcast IP)."""
@@ -443,6 +518,13 @@ HARNESSES = {
         "thorough": [{"fixed": {"two_routers": t, "warm": w}, "timeout": 1200} for t in (False, True) for w in (False, True)],
         "cover": ["up", "down"],
         "bounds": "3 hosts (two on a switched LAN, one behind 1-2 routers with static + default routes, /24 and /30 links), all 6 ordered pairs, 9 toggles, cold/warm ARP",
+    },
+    "reach_asymmetric": {
+        "fn": reach_asymmetric,
+        "quick": [{"fixed": {}, "timeout": 280}],
+        "thorough": [{"fixed": {}, "timeout": 600}],
+        "cover": ["asym_up", "asym_down"],
+        "bounds": "3 routers in a triangle with asymmetric static routes, both directions, 0-2 warm-up rounds (ARP/transit caches cold or warm), each transit link down or none",
     },
     "addressee": {
         "fn": addressee,
